@@ -125,6 +125,78 @@ def members_of(s, o, c):
     return names
 
 
+def depth1_stmts(s, o, c):
+    """depth-1 declarations of a class body as (text) list"""
+    return [re.sub(r"\s+", " ", t).strip() for t in depth1_text(s, o, c).split(";")]
+
+
+def member_types(s, o, c):
+    """{member: declared type text (whitespace removed)} and {typedef name: type} of a class body"""
+    types, tdefs = {}, {}
+    for st in depth1_stmts(s, o, c):
+        st = re.sub(r"^((public|private|protected)\s*:\s*)+", "", st).strip()
+        m = re.match(r"typedef\s+(.+?)\s+(\w+)$", st)
+        if m:
+            tdefs[m.group(2)] = re.sub(r"\s+", "", re.sub(r"\btypename\b", "", m.group(1)))
+            continue
+        m = re.match(r"(?:mutable\s+)?(.+?)\s*\b((?:m|mp|mep|mpe)_\w+)\s*(?:=.*)?$", st)
+        if m and "(" not in m.group(1) and not re.match(r"(static|using|friend|return)\b", st):
+            types[m.group(2)] = re.sub(r"\s+", "", m.group(1))
+    return types, tdefs
+
+
+SIG_TAIL = re.compile(r"\)\s*(?:const\s*)?(?:noexcept\s*)?(?:override\s*)?(?:final\s*)?$")
+
+
+def methods_in_class(s, o, c):
+    """{method name: [body text]} for functions defined inside the class body (depth 1)"""
+    res = {}
+    d, last = 0, o + 1
+    i = o + 1
+    while i < c:
+        ch = s[i]
+        if ch == "{":
+            if d == 0:
+                chunk = s[last:i]
+                ctrl = re.sub(r"\btemplate\s*<[^{};]*?>\s*(?=\w)", "", chunk)
+                m = re.search(r"(operator\s*\(\s*\)|operator\s*[^\s\w(]+|~?\w+)\s*\(", ctrl)
+                e = match_brace(s, i)
+                if e < 0: break
+                if m and ")" in chunk and not re.match(r"\s*(class|struct|enum|union|namespace)\b", ctrl.strip()):
+                    name = re.sub(r"\s+", "", m.group(1))
+                    res.setdefault(name, []).append(s[i + 1:e])
+                i = e + 1; last = i
+                continue
+            d += 1
+        elif ch == "}":
+            d -= 1
+        elif ch == ";" and d == 0:
+            last = i + 1
+        i += 1
+    return res
+
+
+OUT_OF_CLASS_RE = re.compile(r"\b(\w+)(?:<[^<>{};]*>)?::(operator\s*\(\s*\)|~?\w+)\s*\(")
+
+
+def methods_out_of_class(s):
+    """[(class, method, body)] for `Ret Class::method(...) {...}` definitions"""
+    res = []
+    for m in OUT_OF_CLASS_RE.finditer(s):
+        o = m.end() - 1
+        c = match_brace(s, o, "(", ")")
+        if c < 0: continue
+        j = c + 1
+        mm = re.compile(r"\s*(?:const\s*)?(?:noexcept\s*)?(?:override\s*)?(?::[^{};]*)?\{").match(s, j)
+        if not mm: continue
+        b = mm.end() - 1
+        e = match_brace(s, b)
+        if e < 0: continue
+        # must be a definition at statement start (previous non-space token is a type word, `}` or `;`)
+        res.append((m.group(1), re.sub(r"\s+", "", m.group(2)), s[b + 1:e]))
+    return res
+
+
 def norm_expr(e):
     e = re.sub(r"\s+", "", e)
     prev = None
@@ -228,6 +300,10 @@ def stmt_items(stmt, arname):
     if m:
         return [norm_expr(m.group(1))]
     # base-class / member calls: X::read(archive), X::write(archive), x.read(archive)
+    # read/write that forward to the class's own serialize template: `serialize(archive, 0)`,
+    # `const_cast<X&>(*this).serialize(archive, 0)` — the items of that template are inlined by the caller
+    if re.match(r"^(?:const_cast<[^()]*>\(\*this\)\.|this->)?serialize\s*\(\s*" + re.escape(arname) + r"\b", stmt):
+        return ["self:serialize"]
     m = re.match(r"^((?:[\w<>, ]+::)+)(read|write|load|save|serialize)\s*\(\s*" + re.escape(arname) + r"\b", stmt)
     if m:
         return ["base:" + re.sub(r"\s+", "", m.group(1)).rstrip(":")]
@@ -302,8 +378,17 @@ def scan_file(path, rel):
                           body=body, file=rel, line=line, inclass=not qual, pos=m.start()))
     classes = {}
     for name, o, c, bases in spans:
-        classes.setdefault(name, []).append(dict(file=rel, members=members_of(s, o, c), bases=bases.strip(), span=(o, c)))
+        ty, td = member_types(s, o, c)
+        classes.setdefault(name, []).append(dict(file=rel, members=members_of(s, o, c), bases=bases.strip(), span=(o, c),
+                                                 types=ty, typedefs=td, methods=methods_in_class(s, o, c)))
+    ooc = methods_out_of_class(s) if rel.endswith((".cpp", ".inl", ".tpp")) or "::" in s else []
+    for cls_, meth, body in ooc:
+        classes.setdefault(cls_, [])
+        OUT_OF_CLASS.setdefault(cls_, {}).setdefault(meth, []).append(body)
     return found, classes
+
+
+OUT_OF_CLASS = {}
 
 
 def lean_str(x):
@@ -316,6 +401,91 @@ def lean_list(xs):
 
 def ident(name):
     return re.sub(r"\W", "_", name)
+
+
+# ---- token codecs of the container classes (Gen/SerialCodec.lean) ---------------------------------
+# class -> (codec parameters, {declared type (typedefs of the class resolved, whitespace removed) or archived
+# expression: Lean codec}).  The ORDER and the SET of archived fields come from the source on every run; this
+# table only says which codec a C++ type denotes (template parameters are bound to codec parameters).
+CODEC_CLASSES = [
+    ("MatrixStorage", [], {"std::vector<I>": "(stdVector 0 nat)", "std::vector<T>": "(stdVector 0 val)", "I": "nat"}),
+    ("compressed_matrix_impl", [], {"StorageManager": "MatrixStorage_codec", "StorageManager::size_type": "nat"}),
+    ("compressed_matrix", [], {"detail::compressed_matrix_impl<detail::MatrixStorage<T,I>>": "compressed_matrix_impl_codec"}),
+    ("VectorStorage", [], {"m_storage.nnz": "nat", "m_storage.capacity": "nat",
+                           "std::vector<I>": "(stdVector 0 nat)", "std::vector<T>": "(stdVector 0 val)"}),
+    ("Shape", [], {"std::vector<std::size_t>": "(stdVector 0 nat)", "std::size_t": "nat"}),
+    ("SharedContainer", ["cb"], {"std::vector<boost::shared_ptr<BatchType>>": "(stdVector 1 cb)"}),
+    ("Data", ["cb"], {"detail::SharedContainer<Type>": "(SharedContainer_codec cb)", "Shape": "Shape_codec"}),
+    ("LabeledData", ["cb", "cl"], {"UnlabeledData<InputT>": "(Data_codec cb)", "Data<LabelT>": "(Data_codec cl)"}),
+    ("BaseWeightedDataset", ["cd", "cw"], {"DataContainerT": "cd", "Data<WeightType>": "(Data_codec cw)"}),
+]
+# serialize bodies with control flow (`if loading`, `resize`, early exits): modelled by hand in
+# Model/Archive.lean (vecLoad, matLoad, remoraVec, remoraMat); the generated file pins the body text the
+# model was written against — any edit of these bodies breaks `pinned_*` until the model is reviewed
+PINNED = {
+    "vector": "boost::serialization::collection_size_type count(size()); ar & count; if(!Archive::is_saving::value){ resize(count); } "
+              "if (!empty()) ar & boost::serialization::make_array(m_storage.data(),size()); (void) file_version;",
+    "matrix": "boost::serialization::collection_size_type s1(m_size1); boost::serialization::collection_size_type s2(m_size2); "
+              "ar& boost::serialization::make_nvp(\" \",s1) & boost::serialization::make_nvp(\" \",s2); "
+              "if (Archive::is_loading::value) { m_size1 = s1; m_size2 = s2; } ar& boost::serialization::make_nvp(\" \",m_data);",
+    "compressed_matrix_impl": "ar & m_manager; ar & m_minor_size; if(Archive::is_loading::value) m_storage = m_manager.reserve(0);",
+}
+
+
+def gen_codecs(infos, classes, bodies):
+    out = ["/-\nGENERATED by translate/serial_fields.py — do not edit. Token codecs of the container classes, built from the\n"
+           "archived-field lists of the source (order and set of fields) and the declared member types; every `Codec`\n"
+           "carries its round-trip law, so that this file type-checks IS the theorem `dec (enc a ++ rest) = some (a, rest)`\n"
+           "for every generated encoder. `pinned_*`: body text of the serialize functions that are modelled by hand.\n-/",
+           "import SharkVerif.Model.Archive", "namespace SharkVerif.Gen.SerialCodec", "open SharkVerif.Archive SharkVerif.Archive.Codec\n"]
+    by = {i["cls"]: i for i in infos}
+    problems = []
+    for cls, params, table in CODEC_CLASSES:
+        i = by.get(cls)
+        if i is None:
+            problems.append(f"{cls}: no read/write/serialize found"); continue
+        types, tdefs = {}, {}
+        for ci in classes.get(cls, []):
+            types.update(ci.get("types", {})); tdefs.update(ci.get("typedefs", {}))
+
+        def codec_of(expr):
+            if expr in table: return table[expr], expr
+            t = types.get(expr)
+            if t is None: return None, "?"
+            t = tdefs.get(t, t)
+            return table.get(t), t
+        for direction in (("read", "write") if i["kind"] == "pair" else ("write",)):
+            cs, doc = [], []
+            for f in i[direction]:
+                c_, t_ = codec_of(f)
+                doc.append(f"{f} : {t_}")
+                if c_ is None:
+                    problems.append(f"{cls}.{direction}: archived expression `{f}` of type `{t_}` has no codec in CODEC_CLASSES")
+                    c_ = "UNKNOWN"
+                cs.append(c_)
+            term = cs[-1] if cs else "UNKNOWN"
+            for c_ in reversed(cs[:-1]):
+                term = f"(pair {c_} {term})"
+            binders = " ".join(["{V : Type}"] + [f"{{T{k} : Type}}" for k in range(len(params))] +
+                               [f"({p_} : Codec V T{k})" for k, p_ in enumerate(params)])
+            suffix = "" if i["kind"] != "pair" else ("_r" if direction == "read" else "")
+            out.append(f"/-- `{cls}::{direction if i['kind']=='pair' else 'serialize'}` ({i['file']}:{i['line']}): " + "; ".join(doc) + " -/")
+            out.append(f"def {cls}_codec{suffix} {binders} :=\n  ({term} : Codec V _)\n")
+        if i["kind"] == "pair":
+            args = " ".join(params)
+            bind = " ".join(["{V : Type}"] + [f"{{T{k} : Type}}" for k in range(len(params))] +
+                            [f"({p_} : Codec V T{k})" for k, p_ in enumerate(params)])
+            out.append(f"/-- `read` decodes with the codec `write` encodes with -/")
+            out.append(f"theorem {cls}_rw {bind} : ({cls}_codec_r {args}).dec = ({cls}_codec {args}).dec := rfl\n")
+    for cls, want in PINNED.items():
+        got = bodies.get(cls)
+        out.append(f"/-- body of `{cls}::serialize` in the tree (strings blanked, whitespace normalised) -/")
+        out.append(f"def body_{cls} : String := {lean_str(got if got is not None else '<not found>')}")
+        out.append(f"/-- the body the hand-written model of `{cls}::serialize` (Model/Archive.lean) was written against -/")
+        out.append(f"def modelled_{cls} : String := {lean_str(want)}")
+        out.append(f"theorem pinned_{cls} : body_{cls} = modelled_{cls} := rfl\n")
+    out.append("end SharkVerif.Gen.SerialCodec")
+    return "\n".join(out) + "\n", problems
 
 
 def main():
@@ -419,6 +589,10 @@ def main():
             w = good_writes[idx] if idx < len(good_writes) else None
             ritems = archive_items(r["body"], r["arname"]) if r else []
             witems = archive_items(w["body"], w["arname"]) if w else []
+            if sers:
+                own = archive_items(sers[0]["body"], sers[0]["arname"])
+                ritems = [y for x in ritems for y in (own if x == "self:serialize" else [x])]
+                witems = [y for x in witems for y in (own if x == "self:serialize" else [x])]
             if r:
                 for mm_ in re.finditer(r"\bfor\s*\(\s*(?:const\s+)?(?:auto|[\w:<>]+)\s+(\w+)\s*:", r["body"]):
                     var = mm_.group(1)
@@ -453,6 +627,59 @@ def main():
             f_ = classes.get(cls, [{}])[0].get("file", "?")
             infos.append(dict(cls=cls, file=f_, line=0, read=[], write=[], members=mem, kind="missing",
                               anomalies=[f"no read/write pair at all ({why})"]))
+
+    # ---- behaviour dependency lists -------------------------------------------------------
+    BEHAVIOUR = ("eval", "operator()", "parameterVector", "numberOfParameters", "step", "inputShape", "outputShape")
+
+    def all_methods(cls):
+        ms = {}
+        for ci in classes.get(cls, []):
+            for k_, v_ in ci.get("methods", {}).items():
+                ms.setdefault(k_, []).extend(v_)
+        for k_, v_ in OUT_OF_CLASS.get(cls, {}).items():
+            ms.setdefault(k_, []).extend(v_)
+        return ms
+
+    def closure(cls, roots):
+        """texts of the bodies of `roots` and of the methods of the same class they call (transitively)"""
+        ms = all_methods(cls)
+        seen, todo, texts = set(), [r_ for r_ in roots if r_ in ms], []
+        while todo:
+            r_ = todo.pop()
+            if r_ in seen: continue
+            seen.add(r_)
+            for b_ in ms[r_]:
+                texts.append(b_)
+                for name_ in ms:
+                    if name_ in seen or name_ in ("read", "write", "serialize", "load", "save", cls): continue
+                    if re.search(r"(?<![\w:.>])" + re.escape(name_) + r"\s*\(", b_) or \
+                       re.search(r"\bthis\s*->\s*" + re.escape(name_) + r"\s*\(", b_):
+                        todo.append(name_)
+        return texts, sorted(seen)
+
+    def family_of(i):
+        f_, c_ = i["file"], i["cls"].split("#")[0]
+        if c_ in ("KernelExpansion",): return "kernel-expansion"
+        if c_ in ("Normalizer",): return "normaliser"
+        if "Models/Kernels" in f_: return "kernel"
+        if "/Data/" in f_ or c_ in ("Shape",): return "dataset"
+        if "LinAlg" in f_: return "container"
+        if "DirectSearch/Operators" in f_ or "DirectSearch/CMA/" in f_ or c_ in ("Individual",): return "operator"
+        if "Algorithms/GradientDescent" in f_ or "Algorithms/DirectSearch" in f_:
+            return "optimizer" if c_ != "LineSearch" else "optimizer-part"
+        if "/Models/" in f_ or "Unsupervised/RBM" in f_: return "model"
+        if "Trainers" in f_: return "trainer"
+        return "other"
+
+    for i in infos:
+        cls0 = i["cls"].split("#")[0]
+        texts, roots = closure(cls0, BEHAVIOUR)
+        deps = [m_ for m_ in i["members"] if any(re.search(r"\b" + re.escape(m_) + r"\b", t_) for t_ in texts)]
+        rtexts, _ = closure(cls0, ("read", "load", "serialize"))
+        archived = lambda m_: any(re.search(r"(?<![\w])" + re.escape(m_) + r"(?![\w])", f_) for f_ in i["write"])
+        recon = [m_ for m_ in i["members"] if not archived(m_) and
+                 any(re.search(r"\b" + re.escape(m_) + r"\b", t_) for t_ in rtexts)]
+        i["deps"], i["recon"], i["family"], i["behaviour_fns"] = deps, recon, family_of(i), roots
     if a.dump:
         for i in infos:
             print(json.dumps(i, indent=1))
@@ -462,7 +689,7 @@ def main():
     data = [hdr.format(what="One `ClassInfo` per class (definitions only; imported by the native driver).")]
     data.append("import SharkVerif.Model.Archive")
     data.append("namespace SharkVerif.Gen.Serial\nopen SharkVerif.Archive\n")
-    thms = [hdr.format(what="Two obligations per class of Gen/SerialData.lean, closed by `decide`.")]
+    thms = [hdr.format(what="Three obligations per class of Gen/SerialData.lean, closed by `decide`.")]
     thms.append("import SharkVerif.Gen.SerialData")
     thms.append("namespace SharkVerif.Gen.Serial\nopen SharkVerif.Archive\n")
     names = []
@@ -470,29 +697,45 @@ def main():
         idn = ident(i["cls"])
         names.append(idn)
         tr = sorted(m_ for m_ in i["members"] if m_ in tr_members.get(i["cls"].split("#")[0], {}))
+        noted = [m_ for m_ in tr if tr_members[i["cls"].split("#")[0]][m_].startswith("NOTED-unprobed")]
         data.append(f"/-- `{i['cls']}` — {i['file']}:{i['line']} ({i['kind']}) -/")
         data.append(f"def {idn} : ClassInfo :=\n  {{ name := {lean_str(i['cls'])}, file := {lean_str(i['file'])},\n"
                     f"    readFields := {lean_list(i['read'])},\n    writeFields := {lean_list(i['write'])},\n"
                     f"    members := {lean_list(i['members'])},\n    transient := {lean_list(tr)},\n"
-                    f"    anomalies := {lean_list(i['anomalies'])} }}\n")
+                    f"    anomalies := {lean_list(i['anomalies'])},\n    family := {lean_str(i['family'])},\n"
+                    f"    behaviourDeps := {lean_list(i['deps'])},\n    reconstructed := {lean_list(i['recon'])},\n"
+                    f"    noted := {lean_list(noted)} }}\n")
         thms.append(f"theorem rw_{idn} : {idn}.readWriteAgree = true := by decide")
-        thms.append(f"theorem cov_{idn} : {idn}.membersCovered = true := by decide\n")
+        thms.append(f"theorem cov_{idn} : {idn}.membersCovered = true := by decide")
+        thms.append(f"theorem dep_{idn} : {idn}.depsCovered = true := by decide\n")
     data.append("def infos : List ClassInfo :=\n  [" + ",\n   ".join(names) + "]\n")
     data.append("end SharkVerif.Gen.Serial")
     thms.append("/-- every class with the proofs of its obligations -/\ndef checked : List Checked :=\n  [" +
-                ",\n   ".join(f"⟨{n_}, rw_{n_}, cov_{n_}⟩" for n_ in names) + "]\n")
+                ",\n   ".join(f"⟨{n_}, rw_{n_}, cov_{n_}, dep_{n_}⟩" for n_ in names) + "]\n")
     thms.append("def classes : List ClassInfo := checked.map (·.info)\n")
     thms.append("end SharkVerif.Gen.Serial")
     changed = False
-    for path, lines in ((a.out.replace("Serial.lean", "SerialData.lean"), data), (a.out, thms)):
+    bodies = {}
+    for cls_ in PINNED:
+        for f in by_cls.get(cls_, []):
+            if f["kind"] == "serialize" and f["body"] is not None and cls_ not in bodies:
+                bodies[cls_] = re.sub(r'"\s*"', '" "', re.sub(r"\s+", " ", f["body"]).strip())
+    codec_txt, problems = gen_codecs(infos, classes, bodies)
+    for pr in problems:
+        print("codec generation: " + pr, file=sys.stderr)
+    for path, lines in ((a.out.replace("Serial.lean", "SerialData.lean"), data), (a.out, thms),
+                        (a.out.replace("Serial.lean", "SerialCodec.lean"), [codec_txt.rstrip("\n")])):
         txt = "\n".join(lines) + "\n"
         os.makedirs(os.path.dirname(path), exist_ok=True)
         old = open(path).read() if os.path.exists(path) else None
         if old != txt:
             open(path, "w").write(txt); changed = True
+    fam = {}
+    for i in infos: fam[i["family"]] = fam.get(i["family"], 0) + 1
     print(f"classes={len(infos)} pairs={n_pairs} serialize_templates={n_serialize} "
-          f"anomalies={sum(len(i['anomalies']) for i in infos)} changed={changed}")
-    return 0
+          f"anomalies={sum(len(i['anomalies']) for i in infos)} with_behaviour_deps={sum(1 for i in infos if i['deps'])} "
+          f"families={json.dumps(fam, sort_keys=True)} codec_problems={len(problems)} changed={changed}")
+    return 1 if problems else 0
 
 
 if __name__ == "__main__":
